@@ -1,5 +1,6 @@
 import GLua.Engines.TableEng
 import GLua.Engines.SemEng
+import GLua.Engines.CallEng
 import GLua.Engines.PmEng
 import GLua.Engines.LimitsEng
 import GLua.Engines.C16Eng
@@ -19,6 +20,7 @@ open GLua GLua.Eng
 
 structure DState where
   tbl : TableEng.St := []
+  c02m : CallEng.EState := {}
   lim : LimitsEng.St := {}
   meta04 : MetaEng.St := {}
   chan : ChanEng.St := {}
@@ -35,6 +37,7 @@ def stepLine (s : DState) (line : String) : DState × String :=
   | "reset" :: _ => ({}, "ok")
   | "T" :: r => let (t, v) := TableEng.handle s.tbl r; ({ s with tbl := t }, v.show)
   | "S" :: r => (s, SemEng.handle r)
+  | "C02M" :: r => let (t, v) := CallEng.handle s.c02m r; ({ s with c02m := t }, v.show)
   | "C14" :: r => (s, (PmEng.handle r).show)
   | "C12" :: r => let (t, v) := LimitsEng.handle s.lim r; ({ s with lim := t }, v.show)
   | "C16" :: r => (s, (C16Eng.handle r).show)
